@@ -12,10 +12,7 @@ theorem invR_step_4 {w s l s'} (h0 : Inv0 s) (ha : InvA w s) (hi : InvR s) (hs :
   | oForward t c h hk =>
       have htwo := fun t' => h0.two' t' t
       invR_auto
-  | oRefLoad t c h hk =>
-      have htwo := fun t' => h0.two' t' t
-      invR_auto
-  | oRetire t c n h =>
+  | oEnter t c h hk =>
       have htwo := fun t' => h0.two' t' t
       invR_auto
   | oWaited t c rest h ht hf =>
